@@ -3,7 +3,7 @@
    pair-enumeration specification that C08/C15 prove equal to the translated kernels), c09/C09_Model.v (hand model
    of the preprocessing, tied to vario_estimate by execution). *)
 From Coq Require Import Reals ZArith List Bool Arith Permutation Sorted.
-From GS Require Import Num Loops Cellwise RInst Estimator_gen C15_VarioSpec C08_Math C09_Lists C09_Removal C09_Invariance C09_Model.
+From GS Require Import Num Loops Cellwise RInst Estimator_gen C15_VarioSpec C08_Math C09_Lists C09_Removal C09_Invariance C09_Model C09_Directional.
 From GS Require C12_Mat.
 Import ListNotations.
 Close Scope R_scope.
@@ -151,3 +151,22 @@ Print Assumptions C09_ang2dir_unit_2d.
 Theorem C09_ang2dir_unit_3d : forall ora a b, vnorm (Rops ora) (ang2dir_row (Rops ora) 3 [a; b]) = 1%R.
 Proof. exact ang2dir_unit_3d. Qed.
 Print Assumptions C09_ang2dir_unit_3d.
+
+(* 8. directional variograms rotate with the coordinate system (over R): the translated directional kernel gives the
+      same result when points and directions are mapped by the same orthogonal matrix (any tolerance, bandwidth,
+      separate_dirs flag, estimator) *)
+Theorem C09_direction_test_rotates :
+  forall ora Q pos dirs dist tol bw i j d,
+    C12_Mat.orth (shape0 pos) Q -> i < shape1 pos -> j < shape1 pos -> d < shape0 dirs ->
+    dir_test (Rops ora) (shape0 pos) (rotate Q pos) dist (rotate_dirs Q (shape0 pos) dirs) tol bw i j d
+    = dir_test (Rops ora) (shape0 pos) pos dist dirs tol bw i j d.
+Proof. exact dir_test_rotates. Qed.
+Print Assumptions C09_direction_test_rotates.
+
+Theorem C09_directional_rotates :
+  forall ora Q f edges pos dirs tol bw sep et,
+    C12_Mat.orth (shape0 pos) Q ->
+    directional (Rops ora) f edges (rotate Q pos) (rotate_dirs Q (shape0 pos) dirs) tol bw sep et
+    = directional (Rops ora) f edges pos dirs tol bw sep et.
+Proof. exact directional_rotates. Qed.
+Print Assumptions C09_directional_rotates.
